@@ -207,8 +207,10 @@ def harnesses(tier):
     # shadow clients vs. server views after every command, and "the server applies a sequence-number
     # command to the message the client means" (shares the driver of C02, convergence oracle off)
     from checks import c02
-    hist = [(2, 2, c02.OPS), (3, 2, ['delete', 'move_seq', 'store_seen', 'fetch_body'])] if tier == 'quick' else \
-        [(2, 3, c02.OPS), (3, 3, ['delete', 'move_seq', 'store_seen', 'fetch_body', 'append'])]
+    hist = [(2, 2, c02.OPS), (3, 2, ['delete', 'move_seq', 'store_seen', 'fetch_body']),
+            (1, 3, ['delete', 'noop', 'store_seen', 'fetch_body'])] if tier == 'quick' else \
+        [(2, 3, c02.OPS), (3, 3, ['delete', 'move_seq', 'store_seen', 'fetch_body', 'append']),
+         (1, 4, ['delete', 'noop', 'store_seen', 'fetch_body'])]
     for m, d, ops in hist:
         hs.append(Harness('session_history[m=%d,d=%d,ops=%d]' % (m, d, len(ops)), c02._harness(m, d, ops, 'c01'),
                           {'initial_messages': m, 'history_depth': d, 'ops': ops, 'sessions': 2},
